@@ -850,6 +850,7 @@ fn families(w: Which, r: &Runner) {
     after_blank_run_phase(r, "model", accept, move |r, ctx, l, rec| check(w, r, ctx, l, rec));
     pair_phase(r, "model", accept, move |r, ctx, l, rec| check(w, r, ctx, l, rec));
     long_target_phase(r, "model", accept, move |r, ctx, l, rec| check(w, r, ctx, l, rec));
+    long_field_phase(r, "model", accept, move |r, ctx, l, rec| check(w, r, ctx, l, rec));
     // well-known literals: 256 values at every position + every prefix
     let mut offs = vec![0u64];
     for (b, _) in LITERAL_BASES.iter() {
